@@ -3,9 +3,7 @@ package main
 import (
 	"fmt"
 	"math/big"
-	"os"
 	"strings"
-	"time"
 
 	"verif/harness/adapt/iops"
 	"verif/harness/oracle/opoly"
@@ -533,7 +531,6 @@ func runHistories(e *env) {
 	two := func(size int) []int { return []int{0, 1} }
 	few := func(size int) []int { return []int{0, 3} }
 	var cfgs []cfg
-	tStart := time.Now()
 	// conversions do not look at the shift: the long enumerations use two shifts, every shift class is combined with
 	// every form-to-form transition in the length-2 enumerations.
 	switch {
@@ -574,12 +571,7 @@ func runHistories(e *env) {
 			{[]int{4096}, []string{"shift"}, two, convOps, 2},
 		}
 	}
-	for ci, cf := range cfgs {
-		t0 := time.Now()
-		if os.Getenv("C20_TIMING") != "" && ci > 0 {
-			fmt.Fprintf(os.Stderr, "%s cfg %d starts at %v\n", e.N, ci, time.Since(tStart))
-		}
-		_ = t0
+	for _, cf := range cfgs {
 		for _, n := range cf.sizes {
 			for _, v := range cf.variants {
 				D := e.domain(n, v)
